@@ -12,7 +12,7 @@ CHECKS = {
    technique="deterministic simulation: seeded reference-chip I/O-splitting behaviours against the real ReadFile",
    text="Seeded simulation of the real NfcSession.ReadFile (plain and under secure messaging) against the reference chip under every response-splitting behaviour "
         "(size caps, short answers, Le caps, extended length off, EOF warnings, SFI semantics for P1>=0x80, sibling files) over file sizes banded around every length/offset boundary and maxLe 1..65536; "
-        "oracle: exactly the stored bytes, or an error; not-found only if the chip said so; bounded READ BINARY count. Sampling, not proof."),
+        "oracle: exactly the stored bytes, or an error; not-found only if the chip said so; bounded READ BINARY count. A deterministic grid precedes the seeded part: files of 2-8 bytes x chips answering 1-4 bytes x read sizes, and reads that start exactly on offset 0x8000 / 0x10000 (read sizes dividing 0x8000-4, or a short first block). Sampling, not proof."),
  "C03": dict(engine="smduel-resp", cat="fault_enumeration", ref="DESIGN.md 6.3",
    technique="deterministic simulation with an active on-path adversary: enumerated and seeded forged response deliveries over session histories, reference chip as oracle",
    text="Real SecureMessaging/NfcSession against the reference chip's own secure messaging over seeded histories; at one exchange an active adversary delivers a forged response. Every single-bit flip and every truncation of short responses is enumerated per suite; "
@@ -70,7 +70,7 @@ CHECKS = {
  "C20": dict(engine="sched", cat="exploration", ref="DESIGN.md 6.20",
    technique="deterministic simulation of caller threads: seeded cooperative scheduler choosing who runs at every yield point, in a race-detector build, with porcupine linearizability against sequential re-execution",
    text="2-4 real goroutines with scripts of public API calls run under the seeded scheduler (one released at a time; yield points inside gmrtd's critical sections: Transceive, status callback, slog, crypto/rand.Reader, CertPool; hand-offs hidden from the race detector so only gmrtd's locks order the workers). Scenarios: shared reader.Reader, shared verifier.Verifier, independent instances sharing each CertPool type, mobile bindings with concurrent first use of the built-in trust store in a fresh process. "
-        "Oracles: zero race reports; the recorded history is linearizable w.r.t. the real code executed alone on a fresh world with the same per-operation randomness; independent instances equal their lone execution; master lists loaded once; no deadlock. Yield points also inside the library: run.sh instruments a scratch copy of the tree under test (go/ast, a yield call at every function and loop body of reader, verifier, mobile, cms, passiveauth, document) and builds the simulator against it; /repo itself carries no hook."),
+        "Oracles: zero race reports; the recorded history is linearizable w.r.t. the real code executed alone on a fresh world with the same per-operation randomness; independent instances equal their lone execution; master lists loaded once; no deadlock. Yield points also inside the library: run.sh instruments a scratch copy of the tree under test (go/ast, a yield call at every function and loop body of reader, verifier, mobile, cms, passiveauth, document) and builds the simulator against it; /repo itself carries no hook. Calls can be started eagerly (inside another call's critical section: in the library as it is they block and are handed the mutex at the first scheduling point after the holder's call ended) and with a seeded start delay, so that a configuration call falls anywhere inside a long read; three quarters of the shared-reader runs are one reader plus configuring workers; the combined trust-store type gets half of the runs; 256 schedules in the quick tier."),
 }
 
 NOT_APPLICABLE = {
